@@ -16,6 +16,7 @@ import urllib.request
 from pathlib import Path
 
 import core
+import workflow
 import suitetrace
 from props import c19
 
@@ -233,8 +234,11 @@ def run(ctx: core.Ctx) -> int:
         d = r.get("detail")
         if isinstance(d, list):
             r["detail"] = {"history": d[0], "changed": d[1], "created": d[2], "removed": d[3], "sentinel": d[4]}
+    # Workflow.tla: which command may change what (declarations, LICENSES/, siblings, where the project-wide declaration lives)
+    wf = workflow.stage(ctx, ("C15.", "crash"), tid0=900000)
+    mc_viol = list(mc_viol) + wf["mc_violations"]
     return ctx.finish(
-        evaluations=len(events),
+        evaluations=len(events) + len(wf["events"]),
         distinct_nontrivial=len({e["label"] + str(e["k"]) for e in events if e["cmd"]["kind"] not in ("help", "version")}),
         rule="command sequences over {lint x4 formats, lint-file, spdx, spdx -o, supported-licenses, --help, --version, annotate "
              "on files / a binary / a symlink leaving the project, annotate -r on the root / directories / a symlinked "
